@@ -16,7 +16,7 @@ def main():
     assert os.path.abspath(chipfiring.__file__).startswith(os.path.abspath(repo) + os.sep), "chipfiring not imported from " + repo
     mod = importlib.import_module("props." + prop.lower())
     cases = json.load(open(inp))
-    limit = float(os.environ.get("CF_CASE_TIMEOUT", "30"))
+    limit = float(os.environ.get("CF_CASE_TIMEOUT", "180"))      # generous: cases take milliseconds; the alarm only exists to turn a genuine hang into an answer, and must not fire under CPU contention
     signal.signal(signal.SIGALRM, _alarm)
     out = []
     sink = io.StringIO()
